@@ -37,7 +37,36 @@ pub fn num_eq_int_float(i: i64, f: f64) -> bool {
 }
 
 /// Does the decoded tree carry the same data as the value?
+/// A plain scalar the decoder service flagged as read differently by YAML
+/// versions/libraries, resolved strictly by the YAML 1.2 core schema.
+fn resolve_ambiguous(text: &str) -> DTree {
+    let digits = text.trim_start_matches(['-', '+']);
+    let signed_once = text.len() - digits.len() <= 1;
+    if signed_once && !digits.is_empty() && digits.bytes().all(|b| b.is_ascii_digit()) {
+        // [-+]?[0-9]+ : leading zeros are allowed, the value is decimal
+        let neg = text.starts_with('-');
+        let t = digits.trim_start_matches('0');
+        let t = if t.is_empty() { "0" } else { t };
+        return DTree::Int(format!("{}{}", if neg && t != "0" { "-" } else { "" }, t));
+    }
+    let floaty = signed_once
+        && !digits.is_empty()
+        && digits.bytes().all(|b| b.is_ascii_digit() || b == b'.' || b == b'e' || b == b'E' || b == b'-' || b == b'+')
+        && digits.bytes().next().map(|b| b.is_ascii_digit() || b == b'.').unwrap_or(false);
+    if floaty {
+        if let Ok(f) = text.parse::<f64>() {
+            return DTree::Float(f);
+        }
+    }
+    DTree::Str(text.to_string())
+}
+
 pub fn same_data(v: &GVal, d: &DTree, path: &str) -> Result<(), String> {
+    if let DTree::Datetime(s) = d {
+        if let Some(t) = s.strip_prefix("ambiguous-number ") {
+            return same_data(v, &resolve_ambiguous(t), path);
+        }
+    }
     match (v, d) {
         (GVal::Null, DTree::Null) => Ok(()),
         (GVal::Bool(a), DTree::Bool(b)) if a == b => Ok(()),
@@ -68,7 +97,14 @@ pub fn same_data(v: &GVal, d: &DTree, path: &str) -> Result<(), String> {
                 ));
             }
             for (k, x) in a {
-                let hit = b.iter().find(|(dk, _)| matches!(dk, DTree::Str(s) if s == k));
+                let hit = b.iter().find(|(dk, _)| match dk {
+                    DTree::Str(s) => s == k,
+                    DTree::Datetime(s) => match s.strip_prefix("ambiguous-number ") {
+                        Some(t) => matches!(resolve_ambiguous(t), DTree::Str(r) if r == *k),
+                        None => false,
+                    },
+                    _ => false,
+                });
                 match hit {
                     Some((_, y)) => same_data(x, y, &format!("{}.{:?}", path, k))?,
                     None => {
@@ -318,8 +354,8 @@ impl Property for C03 {
     fn budget(&self, tier: Tier) -> Budget {
         Budget {
             cases: match tier {
-                Tier::Quick => 12_000,
-                Tier::Thorough => 240_000,
+                Tier::Quick => 60_000,
+                Tier::Thorough => 1_200_000,
             },
             tape_min: 2,
             tape_max: 160,
